@@ -166,7 +166,9 @@ def _opts(rng, levels, hostile=False):
     if rng.random() < 0.15:
         o["least_squares_params"] = {"max_nfev": int(rng.integers(3, 40))}
     elif rng.random() < 0.1:
-        o["least_squares_params"] = {"loss": "soft_l1"} if hostile else {"x_scale": "jac"}
+        # (robust losses are deliberately not generated: with e.g. loss="soft_l1" the caller asks
+        # for another objective than the squared deviation the property speaks about)
+        o["least_squares_params"] = {"method": "dogbox"} if hostile else {"x_scale": "jac"}
     return o
 
 
